@@ -709,6 +709,25 @@ Proof.
   - intros (F & -> & ->). now apply model_passes_checker_proof.
 Qed.
 
+(* ---------- batches: messages built earlier are not disturbed by messages built later ---------- *)
+
+Lemma batch_passes_proof rs : Forall fits rs ->
+  C14_check_batch (map (fun r => (r, record_msg r, summary_msg r)) rs) = true.
+Proof.
+  intro H. unfold C14_check_batch. rewrite forallb_forall. intros t Ht.
+  apply in_map_iff in Ht. destruct Ht as (r & <- & Hr). cbn [fst snd].
+  apply model_passes_checker_proof. rewrite Forall_forall in H. now apply H.
+Qed.
+
+Lemma batch_characterisation_proof b :
+  C14_check_batch b = true <->
+  Forall (fun t => fits (fst (fst t)) /\ snd (fst t) = record_msg (fst (fst t)) /\
+                   snd t = summary_msg (fst (fst t))) b.
+Proof.
+  unfold C14_check_batch. rewrite forallb_forall, Forall_forall.
+  split; intros H t Ht; apply checker_characterisation_proof; now apply H.
+Qed.
+
 (* the frame index read as an UNSIGNED 64-bit value (how the Go comments describe the field) is the
    record's frame whenever that is non-negative, i.e. always in practice *)
 Lemma frame_unsigned_proof r : 0 <= r_frame r < 2 ^ 63 ->
